@@ -8,6 +8,7 @@ Decided statically (necessary conditions; see DESIGN.md section 5/C01):
   C01.5 SignatureV4.parse feeds the attributes the trailer reads (shared with C08 codec engine)
 """
 import ast
+import re
 
 from sa import sigdata
 from sa.interp import Interp, Scenario, Sym, Const, Bytes, render
@@ -197,7 +198,8 @@ def check_material_verify(rep, prog):
                     libcalls.append(c)
         for ft, args, kw, line, node in libcalls:
             w = '%s:%d' % (f.module.relpath, line)
-            sig_ok = len(args) >= 2 and 'sigbytes' in args[0]
+            # the caller's signature octets, unchanged or left-padded with zero octets (RSA); never sliced or rebuilt
+            sig_ok = len(args) >= 2 and re.match(r'^(REP\(C\(00\);[^;]*\) )?sigbytes$', args[0]) is not None
             subj_ok = len(args) >= 2 and (args[1] == 'subj' or
                                           (args[1].startswith('HASH(hash_alg;') and args[1].rstrip(')').endswith('subj')))
             rep.check(sig_ok and subj_ok, 'C01.3', construct, 'library verify(%s)' % ', '.join(args),
